@@ -312,7 +312,24 @@ def explore(subseed, cfg):
     if len(files) > 1 and rnd.random() < 0.2:
         inc = files[1]
         other = 'zdup' if inc['dir'] != 'zdup' else 'zdup2'
-        case['extra_files'] = {f'{other}/{inc["name"]}': ['  .byte $77', '  .byte $78']}
+        orig_lines = progtree.split_files(main)[progtree.relpath(inc)]
+        mode = rnd.randrange(3)
+        if mode == 0:
+            dup = ['  .byte $77', '  .byte $78']
+        elif mode == 1:
+            dup = list(orig_lines)                       # identical copy in a second search directory
+            pr['ambiguous_identical_copy'] = 1
+        else:
+            # same size (and, in the simulated file system, same mtime) but different content
+            dup = list(orig_lines)
+            for i, ln in enumerate(dup):
+                m = __import__('re').search(r'\d', ln)
+                if m and not ln.lstrip().startswith('#'):
+                    d = ln[m.start()]
+                    dup[i] = ln[:m.start()] + ('7' if d != '7' else '3') + ln[m.start() + 1:]
+                    break
+            pr['ambiguous_same_size_copy'] = 1
+        case['extra_files'] = {f'{other}/{inc["name"]}': dup}
         case['inc_dirs'] = progtree.include_dirs(main) + [other]
         ambiguous = True
         pr['ambiguous_include_present'] = 1
